@@ -35,6 +35,8 @@ ApplyAll(s, cs) == IF cs = <<>> THEN s ELSE ApplyAll(Exec(s, T0, Head(cs), NoHin
 InitSt == ApplyAll(EmptyState, SetupCmds)
 ASSUME PrintT("SETUP " \o ToJson([c |-> SetupCmds]))
 ASSUME PrintT("INIT " \o ToJson(StJ(InitSt)))
+ASSUME PrintT("CMDS " \o ToJson([c |-> SetToSeq(Cmds)]))
+NoBound(s) == FALSE      \* cfg override Bound <- NoBound: print SETUP/INIT/CMDS only (used by C04 to harvest valid commands)
 
 Init == st = InitSt /\ out = [c |-> <<>>, r |-> RNil, b |-> "init"]
 
